@@ -149,6 +149,80 @@ def guard_table(prog, an, rep):
                                          sorted(map(str, got))))
 
 
+def _flag_form(an, f, c, pm, setst, rep, R):
+    """The statement that decides "this commit is manual work".  Either the
+    warning is set right there (inside the commit loop), or a boolean local
+    is raised there and the warning is set under `if <flag>:` after the
+    commit loop.  In the second form the flag may only be raised inside the
+    loop -- never recomputed or cleared by a later commit."""
+    n_ = setst
+    guard = None
+    while n_ in pm:
+        up = pm[n_]
+        if isinstance(up, ast.For):
+            return [setst]                  # set inside a loop: plain form
+        if isinstance(up, ast.If) and isinstance(up.test, ast.Name) and \
+                up.test.id not in f.params and n_ in up.body:
+            guard = up
+            break
+        n_ = up
+    if guard is None:
+        return [setst]
+    flag = guard.test.id
+    stores = stores_to(f, flag)
+    raised = [st for st, v in stores if is_const(v, True)]
+    lowered = [st for st, v in stores if is_const(v, False)]
+    other = [(st, v) for st, v in stores
+             if not (is_const(v, True) or is_const(v, False))]
+    for st, v in other:
+        if isinstance(v, ast.BoolOp) and isinstance(v.op, ast.Or) and any(
+                isinstance(x, ast.Name) and x.id == flag for x in v.values):
+            raise AnalysisError('C15: the flag %r is accumulated with `or`; '
+                                'this form is not analysed' % flag)
+    rep.evaluated()
+    rep.check(not other, R, f.qname + ': the manual-work flag is only '
+              'raised by a commit, never recomputed', f.where(
+                  other[0][0] if other else guard),
+              'the flag %r is assigned %s for every commit: a later commit '
+              'that passes a filter clears what an earlier commit raised '
+              '(manual work discarded without a warning)' % (
+                  flag, [src(v) if v is not None else '?'
+                         for _, v in other][:2]))
+    if not raised:
+        raise AnalysisError('C15: no statement raises the flag %r' % flag)
+    loop = raised[0]
+    while loop in pm and not isinstance(loop, ast.For):
+        loop = pm[loop]
+    rep.check(all(inside(loop, st) for st in raised), R, f.qname +
+              ': the flag is raised in the commit loop only',
+              f.where(guard), '%r is set to True outside the commit loop'
+              % flag)
+    rep.check(isinstance(loop, ast.For) and not inside(loop, guard) and
+              before(f, loop, guard) and all(
+                  not inside(loop, st) and before(f, st, loop)
+                  for st in lowered) and bool(lowered), R, f.qname +
+              ': the flag is lowered before the commit loop and read after '
+              'it', f.where(guard), 'the flag %r is cleared inside the '
+              'commit loop, or read before it ends' % flag)
+    # lowered per integration branch => read per integration branch
+    for st in lowered:
+        up = st
+        while up in pm:
+            up = pm[up]
+            if isinstance(up, ast.For):
+                rep.check(inside(up, guard), R, f.qname + ': the flag is '
+                          'read in the iteration that lowered it',
+                          f.where(st), 'the flag %r is cleared for each '
+                          'integration branch but read after the loop: only '
+                          'the last branch counts' % flag)
+    # the guard is unconditional after the loop
+    up = pm.get(guard)
+    rep.check(isinstance(up, (ast.For, ast.FunctionDef)), R, f.qname +
+              ': the flag is read unconditionally after the commit loop',
+              f.where(guard), '`if %s:` is itself conditional' % flag)
+    return [st for st in raised if inside(loop, st)]
+
+
 def warning_conditions(prog, an, rep):
     R = 'C15.DEP.lossy-detection'
     f = need_func(an, CMD + '._reset')
@@ -169,9 +243,10 @@ def warning_conditions(prog, an, rep):
               [src(st)[:50] for st, _ in stores])
     if len(sets) != 1:
         return
-    setn = c.stmt_node[id(sets[0])]
     pm = parent_map(f.node)
-    inner = sets[0]
+    sites = _flag_form(an, f, c, pm, sets[0], rep, R)
+    site = sites[0]
+    inner = site
     while inner in pm and not isinstance(inner, ast.For):
         inner = pm[inner]
     outer = inner
@@ -185,7 +260,7 @@ def warning_conditions(prog, an, rep):
         for _, v in stores_to(f, src(outer.iter)) if v is not None)
     rep.check(isinstance(inner, ast.For) and isinstance(outer, ast.For) and
               wb_ok, R, f.qname + ': every commit '
-              'of every integration branch is examined', f.where(sets[0]),
+              'of every integration branch is examined', f.where(site),
               'the warning is not set inside loops over wbranches / their '
               'commits')
     if not isinstance(inner, ast.For):
@@ -253,7 +328,8 @@ def warning_conditions(prog, an, rep):
             cond_branches(an, f, T['single-parent'], False) +
             cond_branches(an, f, T['parent-on-dst'], False),
     }
-    for label, g in filters.items():
+    for label, g in itertools.product(filters, sites):
+        label, g, setn = label, filters[label], c.stmt_node[id(g)]
         rep.evaluated()
         ok, path = c.must_pass(g, setn)
         rep.check(ok and bool(g), R, '%s: warning only for a commit that is '
@@ -261,43 +337,30 @@ def warning_conditions(prog, an, rep):
                   '%s: warning only for a commit %s' % (f.qname, label),
                   f.where(sets[0]), 'the warning can be set without the '
                   'filter "%s"' % label, path=c.describe_path(path))
-    # completeness: an iteration ends with the warning set or a `continue`
+    # completeness: an iteration that does not raise the warning went
+    # through one of the three documented filters
     head = c.stmt_node[id(inner)]
     tb = [s for s in c.succ[head] if c.nodes[s].kind == 'true']
-    conts = [n.id for n in c.nodes.values() if n.kind == 'continue' and
-             inside(inner, n)]
-    done = c.done_node[id(sets[0])]
-    ok = True
-    path = None
-    for s0 in tb:
-        p_ = c.path(s0, head, removed=set(conts) | {done}, use_exc=False)
-        if p_ is not None:
-            ok, path = False, p_
-    rep.evaluated()
-    rep.check(ok, R, f.qname + ': a commit that passes no filter always '
-              'sets the warning', f.where(inner), 'a commit can fall '
-              'through the filters without setting the warning (manual '
-              'work silently discarded)', path=c.describe_path(path))
-    # the only ways to skip a commit are the three documented filters
+    done = {c.done_node[id(st)] for st in sites}
+    rep.check(all(inside(inner, st) for st in sites), R, f.qname +
+              ': one commit loop', f.where(inner), 'manual work is '
+              'recognised in several loops')
     skip_gates = cond_branches(an, f, T['in-feature'], True) + \
         cond_branches(an, f, T['robot'], True) + \
         cond_branches(an, f, T['parent-in-feature'], True) + \
         cond_branches(an, f, T['parent-on-dst'], True)
-    for cn in conts:
-        ok2 = True
-        p2 = None
-        for s0 in tb:
-            p_ = c.path(s0, cn, removed=set(skip_gates), use_exc=False)
-            if p_ is not None:
-                ok2, p2 = False, p_
-        rep.evaluated()
-        rep.check(ok2, R, f.qname + ': a commit is skipped only by one of '
-                  'the three filters', f.where(c.nodes[cn]), 'a commit can '
-                  'be skipped for another reason (its loss would go '
-                  'unnoticed)', path=c.describe_path(p2))
-    rep.check(1 <= len(conts) <= 3, R, f.qname + ': at most three skip sites',
-              f.where(inner), '%d continue statements in the commit loop' %
-              len(conts))
+    ok = True
+    path = None
+    for s0 in tb:
+        p_ = c.path(s0, head, removed=set(skip_gates) | done, use_exc=False)
+        if p_ is not None:
+            ok, path = False, p_
+    rep.evaluated()
+    rep.check(ok and bool(tb), R, f.qname + ': a commit that passes no '
+              'filter always sets the warning', f.where(inner), 'a commit '
+              'can fall through the filters without setting the warning '
+              '(manual work silently discarded)', path=c.describe_path(path))
+    rep.floor('C15 skip filters in the commit loop', len(skip_gates), 4)
     for st in inits:
         n_ = st
         is_in = False
